@@ -1,6 +1,16 @@
 ------------------------------ MODULE WalPlan -------------------------------
-(* Planning operators: the I/O effects each API call performs, computed from *)
-(* the pre-state.  Shared by Wal.tla (model checking) and WalTrace.tla       *)
-(* (conformance of the recorded effects).                                    *)
+(* Entry-codec lengths and planning helpers shared by Wal.tla (model         *)
+(* checking) and WalTrace.tla (conformance of the recorded effects).         *)
+(* An entry is RecHdr bytes (1 type + 8 position + 2 name length + name)     *)
+(* plus, for an append, BatchHdr + len bytes per record (8 position + 4      *)
+(* length + payload).  A batch is ONE entry.                                 *)
 EXTENDS Frames
+
+CONSTANTS RecHdr,     \* bytes of an entry without records (real: 11 + name length; the model uses one value)
+          BatchHdr    \* per-record overhead inside an append entry (real: 12)
+
+SeqSumLens(batch) ==
+  LET RECURSIVE S(_)
+      S(n) == IF n = 0 THEN 0 ELSE S(n - 1) + BatchHdr + batch[n][2]
+  IN S(Len(batch))
 =============================================================================
